@@ -536,6 +536,11 @@ def run_shard(args):
             for p in run_nested_join(seed * 23 + i):
                 oracle_bad.append({'desc': p['desc'], 'diffs': [['nested-join', p['msg']]]})
         stats['nested_join_cases'] = max(2, n // 3)
+    if kinds and 'split' in kinds:
+        for i in range(max(2, n // 4)):
+            for p in run_typed_split(seed * 43 + i):
+                oracle_bad.append({'desc': p['desc'], 'diffs': [['typed-split', p['msg']]]})
+        stats['typed_split_cases'] = max(2, n // 4)
     if kinds and 'check_ids' in kinds:
         for i in range(max(2, n // 5)):
             for p in run_dynamic_ids(seed * 7 + i):
@@ -543,3 +548,49 @@ def run_shard(args):
         stats['dynamic_ids_cases'] = max(2, n // 5)
     sample = next(({'desc': r['desc'], 'ids': r['real'].get('ids')} for r in recs if 'real' in r), None)
     return stats, oracle_bad, model_bad, hash_bad, sample, memo_bad
+
+
+def run_typed_split(seed):
+    """Split whose `__split__` yields new ids that are not strings (integers of different lengths, (id, index) tuples with more than
+    ten parts): the exposed ids are the sorted new ids in the order of the ids themselves, each mapped to its (old id, part) (C17)"""
+    rng = random.Random(seed)
+    olds = rng.sample(['a', 'b', 'c'], rng.randint(1, 3))
+    mode = rng.choice(['int', 'tuple'])
+    table, want = [], {}
+    base = 0
+    for n, o in enumerate(sorted(olds)):
+        k = rng.choice([0, 1, 3, 12])
+        pairs = []
+        for j in range(k):
+            new = (base + j * rng.choice([1, 7]) if mode == 'int' else [o, j])
+            if mode == 'int' and new in want:
+                continue        # new ids are unique over the whole dataset (a collision is rejected: another scenario)
+            pairs.append([new, j])
+            want[new if mode == 'int' else (o, j)] = (o, j)
+        base += rng.choice([9, 95, 100])
+        table.append([[o], pairs])
+    src = {'k': 'source', 'cls': 'TS', 'ids': sorted(olds), 'fields': {'x': {'args': ['i'], 'f': 'TS.x'}}, 'params': {}, 'cargs': {}, 'defaults': {}}
+    sp = {'k': 'split', 'cls': 'TSp', 'split': {'args': ['id'], 'table': table}, 'fields': {'x': {'args': ['x', '__part__'], 'f': 'TSp.x'}},
+          'params': {}, 'cargs': {}, 'defaults': {}}
+    d = {'k': 'chain', 'flavour': 'chain', 'layers': [src, sp]}
+    problems = []
+    if len(set(want)) < 2:
+        return problems
+    try:
+        b = Builder()
+        layer = b.layer(d)
+        got = tuple(layer.ids)
+        exp = tuple(sorted(want))
+        if got != exp:
+            problems.append({'desc': d, 'msg': f'Split producing the new ids {sorted(want)[:14]} exposes ids {list(got)[:14]}, the sorted new ids are {list(exp)[:14]}'})
+            return problems
+        fn = layer._compile('x')
+        for new, (o, j) in list(want.items())[:6]:
+            v = canon(val_to_json(fn(new), b.world))
+            w = canon({'app': ['TSp.x', [{'app': ['TS.x', [o], [], []]}, j], [], []]})
+            if v != w:
+                problems.append({'desc': d, 'msg': f'x({new!r}) of the split dataset is {v[:120]}, the entry {o!r} with part {j} gives {w[:120]}'})
+                return problems
+    except Exception as e:
+        problems.append({'desc': d, 'msg': 'Split with non-string new ids raised ' + exc_name(e) + ': ' + str(e)[:150]})
+    return problems
